@@ -23,6 +23,8 @@ E1 = {
     'C08': 'harness.c08_errors',
     'C09': 'harness.c09_resolver',
     'C14': 'harness.c14_node',
+    'C15': 'harness.c15_seasoning',
+    'C16': 'harness.c16_require',
 }
 E2 = {
 }
